@@ -20,6 +20,14 @@ content, a directory is refused; copy helper returned nil => destination equals 
 destination, byte for byte, source untouched; under every single injected fault: error or complete copy; a
 fault-free copy between compatible trees succeeds; no panic, no hang).
 
+Structural tie (every run, DESIGN 1.4): `harness/cmd/fsfacts facts C04` (go/ast) rewrites
+lean/Goat/Tie/ExtractedFSC04.lean from the sources under test — the whole canonical bodies of fshelper.StreamCopy,
+Copy (with its OnDir/OnFile callbacks), Copier.Do / copyFile / copyDirectory, the memory handle's Write / Read /
+Close and the slice events of the memory Writer, the os.OpenFile flag sets and Close of the disk handle — and the
+theorems `tie_*` of lean/Goat/Tie/FSC04.lean compare them by `decide` with the branches Model/Stream.lean mirrors.
+They are obligations of the check: a failing one is followed by the search below and ends as
+`no-failing-input-found` when nothing concrete turns up.
+
 A model/implementation difference is judged by that oracle (`stream check` on the shrunk line): a failing
 clause, a panic or a hang is a counterexample (impl-vs-spec); otherwise the difference concerns something the
 property does not constrain (e.g. what is left behind after a reported error) and is reported as
@@ -31,6 +39,7 @@ import json
 import os
 import subprocess
 
+import fs_tie
 import lib
 
 META = dict(
@@ -44,10 +53,17 @@ META = dict(
              "treeCopy_ok_complete / treeCopy_exact / treeCopy_fault (ok => destination = source laid over the old "
              "destination, nothing outside changes), copier_exact.  The model is tied to /repo on every run by a "
              "differential over five backends as source and destination, random trees and chunkings, and an "
-             "enumeration of every fault position for small cases.",
+             "enumeration of every fault position for small cases, and by a structural tie: go/ast normal forms of "
+             "StreamCopy (reader, writer, io.Copy, both Close calls in order; the io.Copy error and both Close errors "
+             "returned), Copier.copyFile (the same function), Copy (OnDir = MkdirAll, OnFile = MkdirAll(dir) + "
+             "StreamCopy for every file, one consumer, result = ToError(Errors()) after Wait), Copier.Do's dispatch, the "
+             "memory Writer's truncation and appending Write, the disk Writer's O_WRONLY|O_CREATE|O_TRUNC, regenerated "
+             "from the sources and compared with the model's branches by `decide` (lean/Goat/Tie/FSC04.lean, tie_*).",
         design_ref="DESIGN.md 3 C04"),
     level_note="Trusted: Lean kernel (axioms propext/Classical.choice/Quot.sound only); the hand-written model's "
-               "correspondence to /repo (differential; generator reach printed in the histogram). io.Copy is MODELLED "
+               "correspondence to /repo (differential; generator reach printed in the histogram; structural tie "
+               "lean/Goat/Tie/FSC04.lean — SYNTACTIC: go/ast normal forms of the helpers and stream handles compared by "
+               "`decide`, trusted as a reading of the text of those functions, blind to what they call). io.Copy is MODELLED "
                "(the generic read/write loop of the standard library, its contract trusted; the ReadFrom/WriteTo fast "
                "paths of *os.File are exercised by the `raw` cases of the correspondence only). AES-GCM / the ext "
                "cipher are opaque: an encrypted filespace is observed from its plain side and modelled as the backend "
@@ -57,7 +73,8 @@ META = dict(
                "C08's theorem and enters as the hypothesis `order.Perm (nodesOf t)`; the source tree has unique "
                "sibling names (C01's invariant).",
     technique="Lean 4 proof (induction over chunk lists / fuel / visiting order; progress-towards-overlay invariant) "
-              "+ differential correspondence with fault-position enumeration + implementation-only oracle",
+              "+ structural tie (go/ast normal forms of the copy helpers and stream handles vs hand-written expectations, "
+              "`decide`) + differential correspondence with fault-position enumeration + implementation-only oracle",
 )
 
 NSHARDS = 16
@@ -267,7 +284,14 @@ def _oracle(ctx, go, model, outs):
 
 
 def run(ctx):
-    failed = ctx.lean_obligations()
+    try:
+        _run(ctx)
+    finally:
+        fs_tie.restore(ctx)   # a run against a scratch worktree leaves the extracted facts of /repo behind
+
+
+def _run(ctx):
+    failed = fs_tie.obligations(ctx)   # Props/C04 + the structural tie Goat.Tie.FSC04 (regenerated from ctx.repo)
     go = ctx.build_go("stream")
     model = ctx.build_model("m_stream")
     n_rand = ctx.pick(9000, 130000)
@@ -407,7 +431,7 @@ def run(ctx):
     if failed:
         ctx.obligation_violations(failed, searcher=lambda: concrete_found)
     if not ctx.quick():
-        ctx.leanchecker(["Goat.Props.C04"])
+        ctx.leanchecker(["Goat.Props.C04", fs_tie.tie_module(ctx)])
         if any(not o["ok"] for o in ctx.obligations) and not failed:
             ctx.obligation_violations([o for o in ctx.obligations if not o["ok"]])
 
